@@ -207,7 +207,7 @@ theorem rorBody_mirror (l : Bits) (bits : Nat) (start stop : Option Int) :
     have hb := validateSlice_bounds _ _ _ _ _ h
     simp only []
     split
-    · rfl
+    · simp [Except.map]
     · rename_i hne
       have hk : bits % (b - a) < b - a := Nat.mod_lt _ (by omega)
       split
@@ -236,7 +236,7 @@ theorem rolBody_mirror (l : Bits) (bits : Nat) (start stop : Option Int) :
     have hb := validateSlice_bounds _ _ _ _ _ h
     simp only []
     split
-    · rfl
+    · simp [Except.map]
     · rename_i hne
       have hk : bits % (b - a) < b - a := Nat.mod_lt _ (by omega)
       split
